@@ -83,9 +83,9 @@ def sub_alphabet(names):
 # initial stacks (bottom -> top), hex items
 STACKS_QUICK = [(), ("",), ("01",), ("81",), ("0100",), ("ffffffff7f",),
                 ("01", "01"), ("02", ""), ("", "01"), ("0100", "01")]
-STACKS_THOROUGH = [(), ("",), ("01",), ("02",), ("00",), ("80",), ("81",), ("7f",), ("0100",), ("ffffff7f",),
+STACKS_THOROUGH = [(), ("",), ("01",), ("02",), ("00",), ("81",), ("0100",), ("ffffff7f",),
                    ("ffffffff7f",), ("01", "01"), ("02", ""), ("", "01"), ("0100", "01"), ("01", "0100"),
-                   ("81", ""), ("ffffffff7f", "01"), ("02", "03"), ("", "")]
+                   ("81", ""), ("ffffffff7f", "01")]
 STACKS_DEPTH3 = [(), ("01",), ("01", "")]
 # flag lists: standard, plus modifications of flags that matter to signature-free scripts
 FLAGLISTS = ["",
@@ -93,7 +93,7 @@ FLAGLISTS = ["",
              "-DISCOURAGE_UPGRADABLE_NOPS,-CHECKLOCKTIMEVERIFY,-CHECKSEQUENCEVERIFY",
              "-STRICTENC,-DERSIG,-LOW_S,-NULLFAIL,-NULLDUMMY,-CONST_SCRIPTCODE"]
 STACKS_FLAGS_QUICK = {"-MINIMALDATA": [(), ("0100",)], None: [()]}
-STACKS_FLAGS_THOROUGH = {None: [(), ("01",), ("0100",), ("01", "01")]}
+STACKS_FLAGS_THOROUGH = {None: [(), ("0100",), ("01", "01")]}
 
 DEBUG_AREAS = ["sighash", "signing", "segwit", "taproot"]
 DELIVERIES = ["stdin-line/stdout-pipe", "stdin-line/stdout-pty", "argv/stdin-pty/stdout-pipe"]
@@ -284,8 +284,13 @@ def work_chunk(a):
     nproc = 0
     tty_post_error_crashes = 0
     for case in cases:
+        if pu.hang_abort(scratch):
+            hist["skipped-after-hangs"] = hist.get("skipped-after-hangs", 0) + 1
+            continue
         oc, rows, base, referr, terr = check_case(bdir, cwd, case)
         nproc += 2
+        if any(k.startswith("hang:") for k, _ in rows):
+            pu.hang_abort(scratch, True)
         hist[oc] = hist.get(oc, 0) + 1
         order = (len(case[1]), len(case[2]), case[3], case[0], case[2])
         for k, w in rows:
@@ -317,9 +322,12 @@ def check_variants(a):
     names = {"out": "stdout", "rc": "exit-status", "sig": "signal", "errtext": "error-line", "cc": "crash-class"}
     for d in DELIVERIES:
         for oname, xargs, xenv in option_variants():
+            if pu.hang_abort(scratch):
+                continue
             b = run_batch(bdir, cwd, d, xargs, xenv, pre, script, stack)
             n += 1
             if b["hang"]:
+                pu.hang_abort(scratch, True)
                 rows.append(("hang:batch:%s" % d, "%s under %s %s: no exit" % (label, d, oname),
                              {"kind": "variant", "rep": rep, "delivery": d, "option": oname}, label))
                 continue
@@ -564,7 +572,8 @@ def run(ctx):
         "transitions": nproc + nvar + nverb,
         "traces_validated_against_impl": ncmp,
         "samples": samples[:8] or ["(none)"],
-        "exhaustive": True,
+        "exhaustive": not hist.get("skipped-after-hangs", 0),
+        "skipped_after_hangs": hist.get("skipped-after-hangs", 0),
         "bounds": dict(bounds, **{
             "main_pass": "every (script, stack, flag list) case: batch btcdeb (script on stdin, stdout a pipe, no options) + forced-interactive stepping + reference",
             "variant_pass": "%d representative cases (<=3 smallest of every outcome class + %d --tx cases) x %d deliveries x %d option variants; NOT the full case set" % (n_rep, len(tcs), len(DELIVERIES), len(option_variants())),
@@ -590,7 +599,7 @@ def run(ctx):
                     "empty stdin is never fed (C15)",
                 ],
                 summary="%d cases, %d process runs, %d outcome classes, %d crashes" % (len(cases) + len(tcs), nproc + nvar + nverb, len(hist), crashes),
-                infra_error="; ".join(vac) if vac else None)
+                infra_error="; ".join(vac) if (vac and not V.d) else None)
 
 
 # ------------------------------------------------------------------------------------------- replay
